@@ -54,6 +54,9 @@ type Config struct {
 	Prefix        string   // prefix for unique names
 	NoGlobalWrite bool
 	StringCalls   bool // f"str", f{...}
+	// Patterns: plant instances and near misses of the pattern-based checks (duplicate keys, identical
+	// operands, `or true`, repeated conditions, self-assignment, float equality, duplicate parameters)
+	Patterns bool
 	// NoFuncInForBounds: no function expression inside the bounds of a numeric for / explist of a generic for
 	NoFuncInForBounds bool
 	// NoFuncInTargetIndex: no function expression inside the index expression of an assignment target
@@ -286,7 +289,9 @@ func (g *Gen) statement(depth int) {
 		g.callStat()
 	case 4:
 		g.emit("if")
+		condFrom := len(g.Toks)
 		g.exp(g.cfg.ExpDepth)
+		condTo := len(g.Toks)
 		g.emit("then")
 		g.push(false)
 		g.block(depth+1, false)
@@ -294,7 +299,11 @@ func (g *Gen) statement(depth int) {
 		for g.intn(3, "elseif") == 0 {
 			g.newline()
 			g.emit("elseif")
-			g.exp(g.cfg.ExpDepth)
+			if g.cfg.Patterns && g.intn(3, "dupCond") == 0 {
+				g.dupToks(condFrom, condTo)
+			} else {
+				g.exp(g.cfg.ExpDepth)
+			}
 			g.emit("then")
 			g.push(false)
 			g.block(depth+1, false)
@@ -418,6 +427,24 @@ func (g *Gen) statement(depth int) {
 		g.funcBody(depth, -1)
 	default:
 		g.callStat()
+	}
+}
+
+// dupToks re-emits a copy of the tokens [from, to) (same scope, so the bindings are the same).
+func (g *Gen) dupToks(from, to int) {
+	shift := len(g.Toks) - from
+	for k := from; k < to; k++ {
+		tk := g.Toks[k]
+		tk.NL = false
+		tk.Write = false
+		// declarations inside the copied range (parameters of a function expression) are copied too
+		if tk.Var >= from && tk.Var < to {
+			tk.Var += shift
+		}
+		if tk.SelfOf >= from && tk.SelfOf < to {
+			tk.SelfOf += shift
+		}
+		g.Toks = append(g.Toks, tk)
 	}
 }
 
@@ -579,6 +606,7 @@ func (g *Gen) assignStat() {
 		n = 2
 	}
 	var tnames []string
+	statStart := len(g.Toks)
 	for i := 0; i < n; i++ {
 		if i > 0 {
 			g.emit(",")
@@ -593,11 +621,31 @@ func (g *Gen) assignStat() {
 	for _, nm := range tnames {
 		g.banned[nm] = true
 	}
-	for i := 0; i < n; i++ {
+	if g.cfg.Patterns && !g.cfg.NoSameNameInit && g.intn(12, "selfAssign") == 0 {
+		// self-assignment: repeat the target list as the value list
+		eq := len(g.Toks) - 1
+		g.dupToks(statStart, eq)
+		for _, nm := range tnames {
+			delete(g.banned, nm)
+		}
+		return
+	}
+	nv := n
+	if g.cfg.Patterns && g.intn(4, "arity") == 0 {
+		nv = n + 1
+		if n > 1 && g.intn(2, "arityLess") == 0 {
+			nv = n - 1
+		}
+	}
+	for i := 0; i < nv; i++ {
 		if i > 0 {
 			g.emit(",")
 		}
-		g.exp(g.cfg.ExpDepth)
+		if g.cfg.Patterns && g.intn(2, "plainValue") == 0 {
+			g.operand(0)
+		} else {
+			g.exp(g.cfg.ExpDepth)
+		}
 	}
 	for _, nm := range tnames {
 		delete(g.banned, nm)
@@ -712,6 +760,12 @@ func (g *Gen) funcBody(depth int, methodTok int) {
 				break
 			}
 		}
+		if g.cfg.Patterns && i > 0 && g.intn(5, "dupParam") == 0 {
+			nm = pnames[0]
+			if g.intn(3, "underscore") == 0 {
+				nm = "_"
+			}
+		}
 		pnames = append(pnames, nm)
 		if i > 0 {
 			g.emit(",")
@@ -777,12 +831,20 @@ func (g *Gen) table(d int) {
 	for i := 0; i < n; i++ {
 		switch g.intn(3, "fldKind") {
 		case 0:
-			g.emit(fieldPool[i%len(fieldPool)] + fmt.Sprint(i))
+			key := fieldPool[i%len(fieldPool)] + fmt.Sprint(i)
+			if g.cfg.Patterns && i > 0 && g.intn(3, "dupKey") == 0 {
+				key = fieldPool[0] + "0"
+			}
+			g.emit(key)
 			g.emit("=")
 			g.exp(d)
 		case 1:
 			g.emit("[")
-			g.exp(d)
+			if g.cfg.Patterns && g.intn(2, "litKey") == 0 {
+				g.emit([]string{"1", "2", "\"x0\"", "\"1\"", "\"X0\""}[g.intn(5, "litKeyVal")])
+			} else {
+				g.exp(d)
+			}
 			g.emit("]")
 			g.emit("=")
 			g.exp(d)
@@ -831,9 +893,24 @@ func (g *Gen) exp(d int) {
 		}
 		op := ops[g.intn(len(ops), "binop")]
 		// parenthesise operands so that the intended tree is independent of precedence
+		from := len(g.Toks)
 		g.operand(d - 1)
+		to := len(g.Toks)
 		g.emit(op)
-		g.operand(d - 1)
+		pk := 9
+		if g.cfg.Patterns {
+			pk = g.intn(8, "binPattern")
+		}
+		switch pk {
+		case 0, 1:
+			g.dupToks(from, to) // identical operands
+		case 2, 4:
+			g.emit([]string{"true", "false"}[g.intn(2, "boolConst")])
+		case 3:
+			g.emit([]string{"1.5", "0.1", "2.0", "1", "10"}[g.intn(5, "numConst")])
+		default:
+			g.operand(d - 1)
+		}
 	case 9:
 		uops := []string{"not", "-", "#"}
 		if g.cfg.Bitops {
